@@ -20,6 +20,7 @@ import (
 	"fmt"
 	"io"
 	"net/url"
+	"runtime/debug"
 	"sort"
 	"strings"
 	"sync"
@@ -35,7 +36,10 @@ import (
 	"verifharness/internal/kit"
 )
 
-func TestMain(m *testing.M) { kit.Main(m, "C11") }
+func TestMain(m *testing.M) {
+	debug.SetGCPercent(400) // millions of tiny cases: the collector is most of the cost otherwise
+	kit.Main(m, "C11")
+}
 
 // ---------------------------------------------------------------- case data
 
@@ -338,10 +342,10 @@ func (b *built) zeroLast() bool {
 	return len(b.want) > 0 && len(b.want[len(b.want)-1].wire) == 0 && b.tail == 0 && b.end != "separate"
 }
 
-// bareEnd: END_STREAM arrives on an empty DATA frame while no message is in flight.
-func (b *built) bareEnd() bool {
-	return b.end == "separate" && !(len(b.want) > 0 && len(b.want[len(b.want)-1].wire) == 0)
-}
+// bareEnd: END_STREAM arrives on an empty DATA frame of its own. (On the
+// unrepaired tree a zero-length last message is still pending then and is
+// delivered with that frame, so no message is fabricated in that sub-case.)
+func (b *built) bareEnd() bool { return b.end == "separate" }
 
 func (b *built) cutKinds() (inPrefix, inPayload, atBoundary bool) {
 	for _, c := range b.cuts {
@@ -874,9 +878,6 @@ func dirClasses(c Case, name string, d Dir, add func(string)) (nontrivial bool) 
 	if b.end == "separate" {
 		nontrivial = true
 	}
-	if b.bareEnd() {
-		add("shape-bare-end-stream")
-	}
 	if b.zeroLast() {
 		add("shape-zero-length-last")
 	}
@@ -1166,10 +1167,13 @@ const maxEnumLen = 13
 
 func enumCases(yield func(Case) bool) {
 	ts := templates(maxEnumLen)
-	for ti, tp := range ts {
+	within := map[int]int{}
+	for _, tp := range ts {
+		k := within[tp.n]
+		within[tp.n]++
 		if !kit.Thorough() {
-			// quick tier: every template up to 10 bytes, every 4th of the longer ones
-			if tp.n > 10 && ti%4 != 0 {
+			// quick tier: every template up to 10 bytes and a fixed sample of the longer ones
+			if step := map[int]int{11: 8, 12: 15, 13: 29}[tp.n]; step > 0 && k%step != 0 {
 				continue
 			}
 		}
@@ -1196,7 +1200,7 @@ func enumCases(yield func(Case) bool) {
 
 var propCuts = &kit.Prop[Case]{
 	ID: "C11", Name: "all-cut-sets-of-short-streams",
-	Rule: "exhaustive: every message sequence whose length-prefixed byte stream has at most 13 bytes (0, 1 or 2 messages, every payload-length combination, every compressed-flag combination, every encoding for which a valid payload of that length exists: identity/absent always, hand-assembled raw DEFLATE payloads, the chunk-less snappy stream) x all 2^(n-1) cut sets x END_STREAM on the last frame / separate empty frame / trailers / absent, the same stream in both directions (quick tier: all templates up to 10 bytes and every 4th longer one; thorough: all). Non-trivial as for reframe.",
+	Rule: "exhaustive: every message sequence whose length-prefixed byte stream has at most 13 bytes (0, 1 or 2 messages, every payload-length combination, every compressed-flag combination, every encoding for which a valid payload of that length exists: identity/absent always, hand-assembled raw DEFLATE payloads, the chunk-less snappy stream) x all 2^(n-1) cut sets x END_STREAM on the last frame / separate empty frame / trailers / absent, the same stream in both directions (quick tier: all 66 templates up to 10 bytes and a fixed sample of 9 longer ones; thorough: all 201). Non-trivial as for reframe.",
 	Run:  runCase, NonTrivial: nontrivial, Classes: classes,
 }
 
